@@ -7,11 +7,22 @@
    (say `index < _endIndex` becomes `index <= _endIndex`), the regenerated definition changes and
    the corresponding lemma below no longer compiles.
 
-   The proofs do not depend on the shape of the generated text: one tactic [gen_agree] unfolds both
-   sides, splits on the condition of every `if`, and closes each case by [reflexivity] or by [lia]
-   on the `mod 2^64` arithmetic, using the class invariant [SInv] and the bound [i < W] when they
-   are in the context.  Harmless rewrites of the C++ (reordered conjuncts, `a > b` for `b < a`,
-   `?:` for `if`/`else`, extra `const` locals, early returns) keep them compiling. *)
+   The tie is semantic, not textual: one tactic [gen_agree] decides the agreement for this fragment
+   (comparisons, N.min/N.max, boolean connectives, `if`, the outcome monad, arithmetic mod 2^64).
+   It unfolds both sides, replaces every support by its constructor form (so that `*this` and
+   `Support(_grid, _startIndex, _endIndex)` are the same term), splits ONCE on every distinct
+   comparison atom / N.min / N.max (the fact goes to the context as a proposition, branches with
+   contradictory facts are dropped at once) and closes each leaf by [reflexivity], by [f_equal] +
+   [lia] on the indices, or by [lia] on contradictory facts.  It uses the class invariant [SInv]
+   and the bound [i < W] when they are in the context.  Re-implementations with the same behaviour
+   (reordered conjuncts, `a > b` for `b < a`, `?:` for `if`/`else`, extra `const` locals, early
+   returns, an explicit empty / nested / overlapping case analysis instead of std::min/std::max)
+   keep the lemmas compiling.
+
+   calcUnion / calcIntersection are stated for operands satisfying the class invariant (every
+   reachable Support does: Proofs_Pool / Proofs_Updates): a re-implementation may return `*this`
+   where the model re-validates the same window, or call the validating constructor on indices
+   that are in range only because both operands are valid.  All other lemmas are unconditional. *)
 From Coq Require Import List NArith ZArith Bool Lia ZifyBool ZifyN.
 From BSpl Require Import Scalar Outcome Support Spline Proofs_Support.
 From BSpl.gen Require Import SupportGen.
@@ -35,54 +46,104 @@ End Interp.
 
 (* ---- the generic tactic ---- *)
 
-(* both sides down to comparisons, wadd/wsub, constructors and `if` *)
+(* the invariant, if present, as plain arithmetic over sstart s, sstop s, nlen (sgrid s) *)
+Ltac gen_hyps := unfold SInv in *.
+
+(* every support in the context becomes a constructor application: `*this` and
+   `mkSup (sgrid s) (sstart s) (sstop s)` are then the same term *)
+Ltac gen_records :=
+  repeat match goal with
+  | s : support _ |- _ =>
+      let g := fresh "g" in let a := fresh "a" in let b := fresh "b" in destruct s as [g a b]
+  end;
+  cbn [sgrid sstart sstop] in *.
+
+(* both sides down to comparisons, N.min/N.max, wadd/wsub, constructors and `if`: the generated
+   definitions, the model functions, the constructor [sup_ctor], the outcome monad's [bind], the
+   record projections and the boolean connectives (andb x y is `if x then y else false`, ...) *)
 Ltac gen_unfold :=
-  cbv beta zeta delta
+  cbv beta iota zeta delta
     [G.size G.empty G.containsIntervals G.relativeFromAbsolute G.intervalIndexFromAbsolute
      G.absoluteFromRelative G.numberOfIntervals G.valid G.checkValidity
      G.at_guard G.at_throw G.at_index
      G.eq G.createEmpty G.calcUnion G.calcIntersection G.grid_at_guard G.grid_at_throw
      G.spline_valid G.spline_checkValidity gres_interp
      sup_size sup_is_empty contains_intervals rel_from_abs interval_index abs_from_rel
-     num_intervals sup_valid sup_at grid_size grid_at sup_eqb calc_union calc_inter spl_valid].
+     num_intervals sup_valid sup_ctor create_empty sup_at grid_size grid_at sup_eqb calc_union calc_inter
+     spl_valid spl_ctor bind sgrid sstart sstop negb andb orb].
 
-(* the invariant, if present, as plain arithmetic over the atoms sstart s, sstop s, nlen (sgrid s) *)
-Ltac gen_hyps :=
-  repeat match goal with
-  | H : SInv _ |- _ => unfold SInv in H
-  end.
-
-(* one case split per `if` (on its whole condition, not on every comparison inside it), innermost
-   first: a condition that itself contains an `if` is left for later, so that no `if` ever ends up
-   in a hypothesis, where [lia] would have to treat it as an opaque term *)
-Ltac gen_has_if c := match c with context [if _ then _ else _] => idtac end.
-Ltac gen_cases :=
-  repeat match goal with
-  | |- context [if ?c then _ else _] =>
-      tryif gen_has_if c then fail else (let E := fresh "Ecase" in destruct c eqn:E)
-  end.
-
-Ltac gen_arith := unfold wadd, wsub, W in *; lia.
-
-Ltac gen_close :=
-  first
-    [ reflexivity
-    | gen_arith
-    | exfalso; gen_arith
-    | f_equal; first [ reflexivity | gen_arith ]
-    | f_equal; f_equal; first [ reflexivity | gen_arith ] ].
-
-(* hasSameGrid(s) is not integer logic: both of its values are considered ([lia] does not reason
-   about an uninterpreted boolean) *)
+(* hasSameGrid(s) is not integer logic: an arbitrary boolean *)
 Ltac gen_abstract :=
   repeat match goal with
   | |- context [has_same_grid ?a ?b] =>
-      let sg := fresh "same_grid" in
-      generalize (has_same_grid a b); intros sg; destruct sg; cbn [negb andb orb]
+      let sg := fresh "same_grid" in generalize (has_same_grid a b); intros sg
   end.
 
-(* [cbv beta iota] after the case splits: [gres_interp] applied to a constructor *)
-Ltac gen_agree := intros; gen_unfold; gen_hyps; gen_abstract; gen_cases; cbv beta iota; gen_close.
+Ltac gen_simpl := cbv beta iota.
+
+Ltac gen_arith := unfold wadd, wsub, W in *; lia.
+
+(* a term without `if`, N.min, N.max inside: an operand over which [lia] can reason *)
+Ltac gen_plain t :=
+  lazymatch t with
+  | context [if _ then _ else _] => fail
+  | context [N.min _ _] => fail
+  | context [N.max _ _] => fail
+  | _ => idtac
+  end.
+Ltac gen_no_if t :=
+  lazymatch t with context [if _ then _ else _] => fail | _ => idtac end.
+
+(* ONE case split: on a boolean variable tested by an `if`, else on one comparison atom with plain
+   operands (all its occurrences are replaced at once by [true]/[false], the fact goes to the
+   context as a proposition), else on one N.min/N.max with plain operands (replaced everywhere by
+   the operand it equals), else - a condition that is none of these - on the condition itself *)
+Ltac gen_split :=
+  match goal with
+  | |- context [if ?c then _ else _] => is_var c; destruct c
+  | |- context [N.eqb ?x ?y] => gen_plain x; gen_plain y; destruct (N.eqb_spec x y)
+  | |- context [N.leb ?x ?y] => gen_plain x; gen_plain y; destruct (N.leb_spec x y)
+  | |- context [N.ltb ?x ?y] => gen_plain x; gen_plain y; destruct (N.ltb_spec x y)
+  | |- context [N.min ?x ?y] =>
+      gen_plain x; gen_plain y;
+      let Hc := fresh "Hmin" in let He := fresh "Emin" in
+      destruct (N.min_spec x y) as [[Hc He]|[Hc He]]; rewrite He in *; clear He
+  | |- context [N.max ?x ?y] =>
+      gen_plain x; gen_plain y;
+      let Hc := fresh "Hmax" in let He := fresh "Emax" in
+      destruct (N.max_spec x y) as [[Hc He]|[Hc He]]; rewrite He in *; clear He
+  | |- context [if ?c then _ else _] =>
+      gen_no_if c;
+      lazymatch c with
+      | N.eqb _ _ => fail | N.leb _ _ => fail | N.ltb _ _ => fail
+      | _ => let E := fresh "Ecase" in destruct c eqn:E
+      end
+  end.
+
+(* a branch whose facts are contradictory is dropped at once *)
+Ltac gen_prune := try (exfalso; lia).
+
+Ltac gen_cases := repeat (gen_split; gen_simpl; try reflexivity; gen_prune).
+
+(* a leaf: no `if` is left.  Equal constructors are peeled off, index equations go to [lia]
+   (mod-2^64 arithmetic through Z.div_mod_to_equations); different constructors need
+   contradictory facts *)
+Ltac gen_leaf :=
+  first
+    [ reflexivity
+    | lazymatch goal with
+      | |- @eq N _ _ => gen_arith
+      | |- Ok _ = Ok _ => f_equal; gen_leaf
+      | |- Some _ = Some _ => f_equal; gen_leaf
+      | |- mkSup _ _ _ = mkSup _ _ _ => f_equal; gen_leaf
+      | |- grid_sub _ _ = grid_sub _ _ => f_equal; gen_leaf
+      end
+    | exfalso; gen_arith ].
+
+Ltac gen_agree :=
+  timeout 100
+    (intros; gen_hyps; gen_records; gen_unfold; gen_abstract;
+     first [ reflexivity | gen_cases; gen_leaf ]).
 
 Section SupportGen.
   Context {F : Type} {K : Ops F}.
@@ -162,12 +223,12 @@ Section SupportGen.
   Lemma gen_createEmpty_eq s t : gres_interp s t G.createEmpty = create_empty (sgrid s).
   Proof. gen_agree. Qed.
 
-  Lemma gen_calcUnion_eq s t :
+  Lemma gen_calcUnion_eq s t : SInv s -> SInv t ->
     gres_interp s t (G.calcUnion (gs s) (sstart s) (sstop s) (sstart t) (sstop t) (has_same_grid s t))
     = calc_union s t.
   Proof. gen_agree. Qed.
 
-  Lemma gen_calcIntersection_eq s t :
+  Lemma gen_calcIntersection_eq s t : SInv s -> SInv t ->
     gres_interp s t (G.calcIntersection (gs s) (sstart s) (sstop s) (sstart t) (sstop t) (has_same_grid s t))
     = calc_inter s t.
   Proof. gen_agree. Qed.
